@@ -32,6 +32,8 @@ pub struct ReParams {
     pub size: u32,
     /// Allow a character to be repeated inside a bracket set (`['a' 'a']`).
     pub dup_in_set: bool,
+    /// Maximum number of items in a bracket set.
+    pub max_set_items: usize,
 }
 
 impl ReParams {
@@ -48,6 +50,7 @@ impl ReParams {
             depth: 4,
             size: 12,
             dup_in_set: true,
+            max_set_items: 3,
         }
     }
 }
@@ -62,7 +65,7 @@ fn set_items(p: &ReParams) -> BoxedStrategy<Vec<SetItem>> {
             if a <= b { SetItem::R(a, b) } else { SetItem::R(b, a) }
         }),
     ];
-    vec(item, 1..=3)
+    vec(item, 1..=p.max_set_items.max(1))
         .prop_map(move |mut v| {
             if !dup {
                 let mut seen = vec![];
@@ -174,6 +177,9 @@ pub enum EoiForm {
     AltTail(char),
     /// `$`
     Bare,
+    /// `a | b $` when the regex is an alternation (`$` at the tail of the last alternative only),
+    /// otherwise `re $`
+    LastAlt,
 }
 
 pub fn apply_eoi(re: Re, form: &EoiForm) -> Re {
@@ -183,6 +189,10 @@ pub fn apply_eoi(re: Re, form: &EoiForm) -> Re {
         EoiForm::OptTail => cat(re, opt(Re::Eoi)),
         EoiForm::AltTail(c) => cat(re, alt(Re::Char(*c), Re::Eoi)),
         EoiForm::Bare => Re::Eoi,
+        EoiForm::LastAlt => match re {
+            Re::Alt(a, b) => alt(*a, cat(*b, Re::Eoi)),
+            other => cat(other, Re::Eoi),
+        },
     }
 }
 
@@ -196,6 +206,7 @@ fn eoi_form(chars: Vec<char>, pct: u32) -> BoxedStrategy<EoiForm> {
         (pct * 2 / 10 + 1, Just(EoiForm::OptTail).boxed()),
         (pct * 2 / 10 + 1, select(chars).prop_map(EoiForm::AltTail).boxed()),
         (pct * 2 / 10 + 1, Just(EoiForm::Bare).boxed()),
+        (pct * 2 / 10 + 1, Just(EoiForm::LastAlt).boxed()),
     ])
 }
 
